@@ -365,6 +365,7 @@ ASSUMPTIONS = [
     'A-walk: with walkdir\'s other settings at their defaults the walk of a root is a fixed finite sequence walk_of(root, follow) that delivers every entry once, a directory before its contents; with follow_links it descends through links to directories, reports the referent\'s type and delivers a loop or a dangling link as an error item; a DirEntry carries the type the walk saw',
     'A-ignore: the ignore crate decides exclusion (gi_ignored) by git\'s pattern semantics from the root and files the builder was given; walkdir\'s filter_entry applies the filter to every entry and prunes beneath a rejected directory; a .gitignore that cannot be read is dropped by GitignoreBuilder::add without an error xcp sees',
     'A-probe: Path::exists/is_dir/is_file answer truthfully (std turns any stat failure into false)',
+    'A-log: a log line changes nothing in the model except, in errno-reading functions (R28), the thread errno; kerrno_at(trace position) is the kernel answer of the failed libc call at that position',
     'bounded stand-ins (backup-name code, option-value tables, expand_globs) are exhaustive over their stated finite spaces only',
     'A-eintr: a read is interrupted only finitely often (World.eintr_left)',
     'A-off_t: offsets and extent ends fit in i64; usize is 64 bit (global size_of usize == 8)',
